@@ -59,6 +59,7 @@ Fixpoint instr_eqb (a b : instr) : bool :=
   | ISetWatching, ISetWatching | ISpawn, ISpawn | IAwaitDone, IAwaitDone => true
   | IIf c x, IIf d y => cnd_eqb c d && leq x y
   | IWhile c x, IWhile d y => cnd_eqb c d && leq x y
+  | IIfElse c x1 x2, IIfElse d y1 y2 => cnd_eqb c d && leq x1 y1 && leq x2 y2
   | IMkCtx u, IMkCtx v => Bool.eqb u v
   | ICallStreamer u, ICallStreamer v => Bool.eqb u v
   | IReturn r, IReturn q => retk_eqb r q
@@ -89,6 +90,8 @@ Proof.
     f_equal; [apply IH; exact H1 | apply IL; exact H2]. }
   intros a b. destruct a; destruct b; simpl; intro H; try reflexivity; try discriminate.
   - apply andb_true_iff in H. destruct H as [H1 H2]. f_equal; [apply cnd_eqb_sound; exact H1 | apply L; exact H2].
+  - apply andb_true_iff in H. destruct H as [H H3]. apply andb_true_iff in H. destruct H as [H1 H2].
+    f_equal; [apply cnd_eqb_sound; exact H1 | apply L; exact H2 | apply L; exact H3].
   - apply andb_true_iff in H. destruct H as [H1 H2]. f_equal; [apply cnd_eqb_sound; exact H1 | apply L; exact H2].
   - f_equal. apply bool_eqb_sound. exact H.
   - f_equal. apply bool_eqb_sound. exact H.
@@ -191,6 +194,7 @@ Definition hinstr (i : instr) : positive :=
   | ILock => 32 | IUnlock => 33 | IBroadcast => 34 | IWait => 35
   | IIf c b => papp 36 (papp (hcnd c) (Pos.of_succ_nat (length b)))
   | IWhile c b => papp 37 (papp (hcnd c) (Pos.of_succ_nat (length b)))
+  | IIfElse c a b => papp 58 (papp (hcnd c) (papp (Pos.of_succ_nat (length a)) (Pos.of_succ_nat (length b))))
   | IMkCtx u => pb u 38 | ICallStreamer u => pb u 39
   | ISetErr => 40 | IClearErr => 41 | ILoadErr => 42 | ISetStream => 43 | ISetWatching => 44
   | ISpawn => 45 | IAwaitDone => 46
